@@ -1351,6 +1351,83 @@ func readerStream(id *int, expr string, text string, tag string) {
 	}
 }
 
+// manyValues: ONE long-lived Filter with a regexp term is asked about `count` results with
+// DISTINCT values of the key; the expected verdict of each is computed from the value with Go's
+// regexp directly (the denotation of the expression for that result), so nothing large goes
+// through the driver: the sobs clause is the number of misjudged results and the first few.
+func manyValues(id int, shape int, count int) {
+	type exp struct{ t0, t1 bool }
+	var expr string
+	var mk func(i int, res *benchfmt.Result) exp
+	mix := func(i int) uint32 { return uint32(i)*2654435761 + 12345 }
+	switch shape {
+	case 0:
+		expr = ".name:/^Copy/"
+		re := regexp.MustCompile("^Copy")
+		mk = func(i int, res *benchfmt.Result) exp {
+			var name string
+			if mix(i)&1 == 0 {
+				name = "Copy" + strconv.Itoa(i)
+			} else {
+				name = "MoveN" + strconv.FormatUint(uint64(mix(i)), 16)
+			}
+			res.Name = append(res.Name[:0], name...)
+			v := re.Match(res.Name.Base())
+			return exp{v, v}
+		}
+	case 1:
+		expr = "-/size:/k$/ .unit:ns/op"
+		re := regexp.MustCompile("k$")
+		mk = func(i int, res *benchfmt.Result) exp {
+			size := strconv.Itoa(i) + []string{"k", "M"}[mix(i)>>7&1]
+			res.Name = append(res.Name[:0], ("Copy/size=" + size + "-8")...)
+			return exp{!re.MatchString(size), false}
+		}
+	default:
+		expr = "commit:(deadbeef OR /^0/ OR /^f/)"
+		re0, ref := regexp.MustCompile("^0"), regexp.MustCompile("^f")
+		mk = func(i int, res *benchfmt.Result) exp {
+			c := fmt.Sprintf("%08x", mix(i))
+			res.Config[0].Value = append(res.Config[0].Value[:0], c...)
+			v := c == "deadbeef" || re0.MatchString(c) || ref.MatchString(c)
+			return exp{v, v}
+		}
+	}
+	hx.Printf("case %d kind=m expr=%s shape=%d count=%d tag=manyvalues\n", id, hx.HexS(expr), shape, count)
+	f, err := benchproc.NewFilter(expr)
+	if err != nil {
+		hx.Printf("crash %d NewFilter: %v\n", id, err)
+		return
+	}
+	res := &benchfmt.Result{Name: benchfmt.Name("Copy"), Iters: 1,
+		Config: []benchfmt.Config{{Key: "commit", Value: []byte("00000000"), File: true}},
+		Values: []benchfmt.Value{{Value: 0, Unit: "ns/op"}, {Value: 1, Unit: "B/op"}}}
+	bad := 0
+	var first []string
+	func() {
+		defer func() {
+			if r := recover(); r != nil {
+				hx.Printf("crash %d %s\n", id, strings.ReplaceAll(fmt.Sprint(r), "\n", " "))
+			}
+		}()
+		for i := 0; i < count; i++ {
+			want := mk(i, res)
+			m, _ := f.Match(res)
+			if m.Test(0) != want.t0 || m.Test(1) != want.t1 {
+				bad++
+				if len(first) < 3 {
+					first = append(first, hx.HexS(string(res.Name)+"|"+string(res.Config[0].Value)))
+				}
+			}
+		}
+	}()
+	fs := "-"
+	if len(first) > 0 {
+		fs = strings.Join(first, ",")
+	}
+	hx.Printf("sobs %d many=%d first=%s\n", id, bad, fs)
+}
+
 func replayCase(id int, l string) {
 	get := func(k string) string { v, _ := hx.Field(l, k); return v }
 	rs := &resSpec{name: string(hx.UnHex(get("name")))}
@@ -1449,6 +1526,11 @@ func main() {
 			stream = append(stream, rs)
 		}
 		runStream(&id, e, stream, []string{"corpus", "stream"})
+	}
+	// many distinct values through one long-lived Filter (quick 3 x 600 000, thorough 3 x 1 000 000)
+	for shape := 0; shape < 3; shape++ {
+		manyValues(id, shape, hx.N(600000, 1000000))
+		id++
 	}
 	ut := unitStreamText()
 	for _, e := range readerExprs {
